@@ -96,7 +96,7 @@ A(M("c10r4-r5-serial-no-ter", ["C10"], P2, "        current_serial += 2 if chain
 A(M("c10r4-r5-enumerate-start-silent", ["C10"], P2, "            tuple(res): i + 1\n            for i, res in enumerate(original_residues.itertuples(index=False))\n", "            tuple(res): i\n            for i, res in enumerate(original_residues.itertuples(index=False), start=1)\n", kind="silent", **F5))
 A(M("c10r4-r5-returns-copy", ["C10"], P2, "    if can_write_pdb(df):\n        return df\n", "    if can_write_pdb(df):\n        return df.copy()\n", "fits-returns-same", **F5))
 A(M("c10r4-r5-works-on-input", ["C10"], P2, "    df_fitted = df.copy()\n", "    df_fitted = df\n", "input-untouched", **F5))
-A(M("c10r4-r5-sorts-by-chain", ["C10"], P2, "    df_fitted.sort_index(\n        inplace=True\n    )", "    df_fitted.sort_values(\n        [chain_col], kind=\"stable\", inplace=True\n    )", "frame-condition", **F5))
+A(M("c10r4-r5-sorts-by-chain", ["C10"], P2, "    for index, row in df_fitted.iterrows():\n        current_chain_id = row[chain_col]\n", "    df_fitted.sort_values([chain_col], kind=\"stable\", inplace=True)\n    for index, row in df_fitted.iterrows():\n        current_chain_id = row[chain_col]\n", ["frame-condition", "row-order"], **F5))  # round 5: the repository no longer sorts by index there (F24)
 A(M("c10r4-resmap-run-detection", ["C10"], P2, None, None, "residue-map", edits=[
     ("    df_fitted[new_resseq_col] = -1  # Initialize\n", "    keys_ = df_fitted[[chain_col, resseq_col, icode_col]].astype(object).fillna(\"\")\n    starts_ = (keys_ != keys_.shift()).any(axis=1)\n    df_fitted[new_resseq_col] = starts_.groupby(df_fitted[chain_col]).cumsum()\n"),
     ("    for new_chain_id, group in df_fitted.groupby(chain_col):\n", "    for new_chain_id, group in df_fitted.iloc[:0].groupby(chain_col):\n")]))
